@@ -10,6 +10,7 @@ extern "C" {
    void vp_observe(uint64_t tag, uint64_t v); // address-independent observation for the differential run
    void vp_done(void);
    void vp_phase(int);                      // C20: 1 = building the other Lexicon, 2 = operating on this one, 0 = off (native: no-op)
+   void vp_check_range(void* p, uint64_t len); // [p, p+len) lies inside one live allocation (native: the range is written, ASan checks)
    void vp_mark(void);                      // start of a leak-accounting window (native: no-op, LeakSanitizer does the accounting)
    void vp_leakcheck(void);                 // every heap block allocated since vp_mark() must have been released                      // end-of-harness witness
 }
